@@ -167,6 +167,8 @@ class StreamingHandler(AsyncCallbackHandler, AsyncIterator):
                         # We push that as well.
                         if len(self.completion) > len(prev_completion):
                             self.current_chunk = self.completion[len(prev_completion) :]
+                            # It is added to the completion when it is processed
+                            self.completion = prev_completion
                             await self.push_chunk(None)
 
                         # And we stop the streaming
